@@ -9,11 +9,10 @@
    differential correspondence of harness/props/c09.py.  Valuations, function bodies and the comparison are
    universally quantified oracles: "for every valuation" is literal.
 
-   FULL: sections 1-6 (except the report of section 4), C09_ordered_list_credit_implies_permitted,
-         C09_sum_credit_implies_permitted, C09_sum_limit_names_never_graded.
+   FULL: sections 1-6, C09_ordered_list_credit_implies_permitted, and section 8 except the author's own fields.
    PARTIAL (with what is missing) and REFUTED (witnesses in the faithful model, reproduced on the real code by the
-   harness on every run): how an undefined name is reported (section 4), ordered lists (section 7), SumGrader's
-   summand over an empty range and the author's own fields (section 8). *)
+   harness on every run; both are recorded known findings): the error class for ordered lists (section 7) and
+   SumGrader validating the author's own non-entered fields (section 8). *)
 From Coq Require Import ZArith QArith List Bool.
 From Verif.Model Require Import Result Lexer Parser Eval RestrictBase Restrict.
 From Verif.Gen Require Restrict.
@@ -210,30 +209,20 @@ Theorem C09_numbered_regexp_of_source : Gen.Restrict.gen_numbered_regexp = numbe
 Proof. exact regexp_bridge. Qed.
 Print Assumptions C09_numbered_regexp_of_source.
 
-(* how the rejection is REPORTED (check_scope's messages, over explicit name lists).
-   FULL STATEMENT WANTED: scope_report v f s t = Some (GEvalError e) whenever check_scope rejects t with e.
-   PROVED (partial): the report rejects exactly what the scope check rejects, and with the same class OR the generic
-   "could not check input" error; the generic error needs a defined name containing a brace that differs from the
-   undefined name only by case (so without such names the class is always the undefined-name error).
-   MISSING: exactly that case -- C09_case_variant_report_refuted. *)
-Theorem C09_undefined_name_report_partial : forall v f s t,
-  (check_scope (name_env v f s) t = None <-> scope_report v f s t = None)
-  /\ (forall e, check_scope (name_env v f s) t = Some e ->
-        scope_report v f s t = Some (GEvalError e) \/ scope_report v f s t = Some GGenericError)
-  /\ (scope_report v f s t = Some GGenericError ->
-        exists d b, (In d v /\ In b (vars_of t) /\ ~ In b v \/ In d f /\ In b (funcs_of t) /\ ~ In b f)
-                    /\ has_brace d = true /\ lower d = lower b).
-Proof.
-  exact (fun v f s t => conj (proj1 (scope_report_spec v f s t))
-                        (conj (proj2 (scope_report_spec v f s t)) (generic_error_needs_brace_variant v f s t))).
-Qed.
-Print Assumptions C09_undefined_name_report_partial.
+(* how the rejection is REPORTED (check_scope's messages, over explicit name lists): it is the scope check itself --
+   the same formulas are rejected and always with the undefined-name class.  (Until /repo ff844fe the "did you mean"
+   suggestion was appended before .format() and a suggested name with braces turned the error into the generic one;
+   the witness is kept as the example below and in the harness corpus.) *)
+Theorem C09_undefined_name_report : forall v f s t,
+  scope_report v f s t = option_map GEvalError (check_scope (name_env v f s) t).
+Proof. exact scope_report_spec. Qed.
+Print Assumptions C09_undefined_name_report.
 
-Example C09_case_variant_report_refuted :
-  (* scope {x, y, a_{1}}, input x*a_{1}+0*A_{1}: "(did you mean 'a_{1}'?)" is appended before .format() *)
-  report [n_x; [121]; n_a1] [120; 42; 97; 95; 123; 49; 125; 43; 48; 42; 65; 95; 123; 49; 125] = Some GGenericError.
+Example C09_ex_case_variant_with_braces_reported_as_undefined :
+  (* scope {x, y, a_{1}}, input x*a_{1}+0*A_{1} *)
+  report [n_x; [121]; n_a1] [120; 42; 97; 95; 123; 49; 125; 43; 48; 42; 65; 95; 123; 49; 125] = Some (GEvalError EUndefVar).
 Proof. exact ex_report_brace_variant. Qed.
-Print Assumptions C09_case_variant_report_refuted.
+Print Assumptions C09_ex_case_variant_with_braces_reported_as_undefined.
 
 (* ================================================================================================
    5. the sampling loops of FormulaGrader, SumGrader and IntegralGrader as they stand in the source: in every
@@ -339,27 +328,39 @@ Theorem C09_sum_limit_names_never_graded : forall ev, scope_first ev -> forall c
 Proof. exact sum_limit_undefined_never_graded. Qed.
 Print Assumptions C09_sum_limit_names_never_graded.
 
-(* FULL STATEMENT WANTED: the same for names in the summand, unconditionally.
-   PROVED (partial): it holds whenever the index range is non-empty.
-   MISSING: nothing can be proved for an empty range -- the summand is then never evaluated, hence never
-   scope-checked: C09_sum_empty_range_refuted. *)
-Theorem C09_sum_summand_names_never_graded_partial : forall ev, scope_first ev -> forall c P O en author student E Es compare t n,
+(* the same for names in the summand, unconditionally: evaluate_sum checks the summand's names (with the summation
+   variable bound) before any term is evaluated, so an empty index range does not matter (since /repo 390fac8) *)
+Theorem C09_sum_summand_names_never_graded : forall ev, scope_first ev -> forall c P O en author student E Es compare t n,
   let inp := structure_input en author student in
-  py_strip (s_summand inp) <> [] -> parse_formula (py_strip (s_summand inp)) = PTree t ->
+  parse_formula (s_summand inp) = PTree t ->
   In n (vars_of t) -> n <> s_variable inp -> ~ allowed c [] n ->
-  (forall lo hi idx, so_range O lo hi = Some idx -> idx <> []) ->
   forall e, sum_check ev c P O en author student (E :: Es) compare <> GResult e.
 Proof. exact sum_summand_undefined_never_graded. Qed.
-Print Assumptions C09_sum_summand_names_never_graded_partial.
+Print Assumptions C09_sum_summand_names_never_graded.
 
-Example C09_sum_empty_range_refuted :
-  (* author: odd n from -3 to 3 of n^3 (= 0); student limits 2..2 (no odd index) and summand z (instructor variable),
-     qq (undefined), 2k (undefined suffix): all graded correct *)
-  sum_run all_entered sum_author (mkSum [50] [50] n_z n_n) = credit
-  /\ sum_run all_entered sum_author (mkSum [50] [50] [113; 113] n_n) = credit
-  /\ sum_run all_entered sum_author (mkSum [50] [50] [50; 107] n_n) = credit.
-Proof. exact ex_sum_empty_range. Qed.
-Print Assumptions C09_sum_empty_range_refuted.
+(* a sampled instructor variable cannot be re-used as the student's summation variable (since /repo e54e9a1) *)
+Theorem C09_sum_instructor_variable_not_a_summation_variable :
+  forall ev, scope_first ev -> forall c P O en author student E Es compare,
+  let inp := structure_input en author student in
+  In (s_variable inp) (c_instructor c) ->
+  In (s_variable inp) (c_variables c) \/ In (s_variable inp) (c_constants c) ->
+  forall e, sum_check ev c P O en author student (E :: Es) compare <> GResult e.
+Proof. exact sum_instructor_variable_not_a_dummy. Qed.
+Print Assumptions C09_sum_instructor_variable_not_a_summation_variable.
+
+Example C09_ex_sum_empty_range_rejected :
+  (* author: odd n from -3 to 3 of n^3 (= 0); student limits 2..2 (no odd index): summand z (instructor variable),
+     qq (undefined), 2k (undefined suffix) are rejected; summand 1 is graded; z as summation variable is refused *)
+  sum_run all_entered sum_author (mkSum [50] [50] n_z n_n) = GEvalError EUndefVar
+  /\ sum_run all_entered sum_author (mkSum [50] [50] [113; 113] n_n) = GEvalError EUndefVar
+  /\ sum_run all_entered sum_author (mkSum [50] [50] [50; 107] n_n) = GEvalError EUndefSuffix
+  /\ sum_run all_entered sum_author (mkSum [50] [50] [49] n_n) = credit
+  /\ sum_run all_entered sum_author (mkSum [45; 51] [51] [122; 94; 51] n_z) = GSummationError.
+Proof.
+  exact (conj (proj1 ex_sum_empty_range) (conj (proj1 (proj2 ex_sum_empty_range))
+        (conj (proj1 (proj2 (proj2 ex_sum_empty_range))) (conj (proj2 (proj2 (proj2 ex_sum_empty_range))) ex_sum_instructor_dummy)))).
+Qed.
+Print Assumptions C09_ex_sum_empty_range_rejected.
 
 Example C09_sum_author_fields_refuted :
   (* the student enters only the summand n (correct); the author's own upper limit -- z (instructor variable),
